@@ -179,6 +179,23 @@ func runC16(res *result) {
 		}
 		plan.Ops = append(plan.Ops, drvOp{Op: "call", Call: cs})
 		exps = append(exps, e)
+		// the same call made twice through the same objects (the second one is judged): a middleware
+		// that rewrote the first call's results still holds them when the second call runs
+		if !twin && !fails && len(l) > 0 {
+			for _, m := range l {
+				if m.Behave == "rewrite-result" || m.Behave == "observe" {
+					cs2 := *cs
+					cs2.Repeat = true
+					cs2.FirstFails = true // the first call ends with an error, the second with 50
+					e2 := e
+					e2.cs = &cs2
+					e2.desc += " - second of two identical calls"
+					plan.Ops = append(plan.Ops, drvOp{Op: "call", Call: &cs2})
+					exps = append(exps, e2)
+					break
+				}
+			}
+		}
 	}
 	for _, l := range lists {
 		for _, point := range []string{"provider", "client", "processor", "added", "added-only"} {
